@@ -1466,6 +1466,16 @@ def x_assert(e, st, work, fr, ins, a):
     elif not c: raise Violation('assertion %d failed' % a[1], 'assert', a[1])
     return None
 
+@ext('vf_require')
+def x_require(e, st, work, fr, ins, a):
+    c = a[0]
+    if type(c) is Bad: raise bad_use(c, 'requirement %d' % a[1])
+    if is_sym(c):
+        c = e.as_bool(c); bad, mdl = e.sat(st, z3.Not(c))
+        if bad: raise Violation('harness invariant %d can fail' % a[1], 'require', a[1], mdl)
+    elif not c: raise Violation('harness invariant %d failed' % a[1], 'require', a[1])
+    return None
+
 @ext('vf_cover')
 def x_cover(e, st, work, fr, ins, a): st.cover.add(a[0]); return None
 
